@@ -82,3 +82,30 @@ WEXPORT int64_t w_json_skip_ws(const uint8_t* in, size_t n, size_t start, int st
   }
   W_JSON_CATCH
 }
+
+// The StringReader primitives JSON::parse is built on (Strings.hh / Strings.cc). op: 0 get_s8(false) (peek), 1 get_s8() (advance),
+// 2 pget_s8(arg), 3 eof(), 4 skip_if(lit, litlen). Returns the byte (0..255) / the bool; *where = reader offset afterwards.
+WEXPORT int64_t w_reader_op(const uint8_t* in, size_t n, size_t start, int op, size_t arg, const uint8_t* lit, size_t litlen, uint64_t* where) {
+  try {
+    StringReader r(in, n, start);
+    int64_t ret;
+    switch (op) {
+      case 0: ret = static_cast<uint8_t>(r.get_s8(false)); break;
+      case 1: ret = static_cast<uint8_t>(r.get_s8()); break;
+      case 2: ret = static_cast<uint8_t>(r.pget_s8(arg)); break;
+      case 3: ret = r.eof() ? 1 : 0; break;
+      default: ret = r.skip_if(lit, litlen) ? 1 : 0; break;
+    }
+    *where = r.where();
+    return ret;
+  }
+  W_JSON_CATCH
+}
+
+// value_for_hex_char (Strings.cc): digit value, or out_of_range
+WEXPORT int64_t w_hex_char(uint8_t c) {
+  try {
+    return value_for_hex_char(static_cast<char>(c));
+  }
+  W_JSON_CATCH
+}
